@@ -213,3 +213,21 @@ Section Diverge.
     destruct (nxt_iter_run tp n t x T W Hx) as [T' Hr]. exists x, T'. exact Hr.
   Qed.
 End Diverge.
+
+(* ------------------------------------------------------------------ round 7 *)
+(* register-list members without the hypothesis id < 32: the lead register is what the instruction encodes (whatever number
+   it is given), every further member is the successor modulo 32 *)
+From Verif Require Import RegAlloc.RaIRProofs.
+Theorem expand_list_nth_any g n id i : (i < n)%nat ->
+  nth i (expand_list g id n) (LSlot 0) = LReg g (if Nat.eqb i 0 then id else N.modulo (id + N.of_nat i) 32).
+Proof.
+  intros Hi. destruct n as [|n]; [lia|]. destruct i as [|i]; cbn [expand_list nth Nat.eqb]; [reflexivity|].
+  rewrite expand_list_nth; [|apply N.mod_upper_bound; discriminate|lia].
+  rewrite Nat2N.inj_succ, N.add_mod_idemp_l by discriminate. f_equal. f_equal. lia.
+Qed.
+
+(* sequence-level lift of the inserted-instruction frame: k silent steps (moves, swaps, labels, jumps only) take the allocated
+   program from t to its k-th silent successor, for any instruction semantics and machine state, and leave the world as it is *)
+Theorem silent_steps_keep_world (world : Type) (sem : opcode -> list Z -> world -> list Z * world) (semc : opcode -> list Z -> world -> bool)
+  tp k t x T W : nxt_iter tp k t = Some x -> exists T', trun world sem semc k tp (t, T, W) = Next (x, T', W).
+Proof. exact (nxt_iter_run world sem semc tp k t x T W). Qed.
